@@ -96,6 +96,9 @@ func (p *player) buildNode() *gomavlib.Node {
 				p.listeners2[i] = l2
 				go p.acceptLoop(i, l2)
 				p.dnsIP.Store("127.0.0.1")
+				if e.DNS != "" {
+					p.dnsIP.Store(e.DNS)
+				}
 				p.startDNS()
 				n.Endpoints = append(n.Endpoints, gomavlib.EndpointTCPClient{Address: e.Host + ":" + port})
 				continue
@@ -123,6 +126,9 @@ func (p *player) buildNode() *gomavlib.Node {
 			la, _ := net.ResolveUDPAddr("udp4", p.addrs[i])
 			p.peers[[2]int{i, 1}] = &pktPeer{pc: pc, to: la}
 			go p.udpPeer(i, pc, true)
+			if e.BcastPort != nil {
+				bport = *e.BcastPort
+			}
 			n.Endpoints = append(n.Endpoints, gomavlib.EndpointUDPBroadcast{BroadcastAddress: "127.255.255.255:" + bport, LocalAddress: p.addrs[i]})
 		case "serial":
 			p.serialFailsLeft[i] = e.SerialFails
@@ -228,8 +234,16 @@ func (p *player) doWrite(s ScStep) {
 	case "v1_big": // a dialect message whose id does not fit a v1 frame
 		m = &message.MessageRaw{ID: 300, Payload: []byte{byte(s.Tag), byte(s.Tag >> 8), byte(s.Tag >> 16), 0, 1}}
 	}
+	foreign := s.Foreign && isFrame && s.Bad == ""
+	if foreign {
+		// what a router forwards when its own dialect is smaller than the traffic: raw message, id 54321, v2
+		fv = 2
+		m = &message.MessageRaw{ID: 54321, Payload: []byte{byte(s.Tag), byte(s.Tag >> 8), byte(s.Tag >> 16), 0, byte(s.G), 1, 2, 3, 4, 5}}
+	}
 	var fr frame.Frame
-	if isFrame {
+	if foreign {
+		fr = &frame.V2Frame{SequenceNumber: byte(s.Tag), SystemID: 77, ComponentID: 88, Message: m, Checksum: 0x1234}
+	} else if isFrame {
 		if fv == 1 {
 			fr = &frame.V1Frame{SequenceNumber: byte(s.Tag), SystemID: 77, ComponentID: 88, Message: m}
 		} else {
@@ -269,7 +283,7 @@ func (p *player) doWrite(s ScStep) {
 		}
 	}
 	p.rec.Put(M{"e": "WInv", "g": s.G, "call": call, "kind": s.Kind, "target": tdesc, "tep": s.Ep, "tinst": s.Inst, "tag": s.Tag,
-		"bad": s.Bad, "raw": s.Raw, "fv": fv, "t": p.ms()})
+		"bad": s.Bad, "raw": s.Raw, "fv": fv, "foreign": foreign, "t": p.ms()})
 	var err error
 	pan := func() (pp bool) {
 		defer func() {
@@ -558,8 +572,14 @@ func (p *player) step(s ScStep) {
 		per := map[int][][]byte{}
 		for _, bi := range s.Items {
 			b := p.itemBytes(bi.Item)
-			p.rec.Put(M{"e": "Feed", "ep": bi.Ep, "peer": 0, "kind": bi.Item.Kind, "tag": bi.Item.Tag, "n": len(b),
-				"sys": bi.Item.Sys, "comp": bi.Item.Comp, "autopilot": bi.Item.Autopilot, "t": p.ms()})
+			if bi.Item.Mute {
+				p.mu.Lock()
+				p.muted[[3]int{bi.Ep, bi.Item.Sys, bi.Item.Comp}] = true
+				p.mu.Unlock()
+			} else {
+				p.rec.Put(M{"e": "Feed", "ep": bi.Ep, "peer": 0, "kind": bi.Item.Kind, "tag": bi.Item.Tag, "n": len(b),
+					"sys": bi.Item.Sys, "comp": bi.Item.Comp, "autopilot": bi.Item.Autopilot, "t": p.ms()})
+			}
 			per[bi.Ep] = append(per[bi.Ep], b)
 		}
 		var wg sync.WaitGroup
